@@ -14,7 +14,7 @@ pub mod vspec_pclauses {
 #[allow(unused_imports)] use crate::keys::*;
 #[allow(unused_imports)] use crate::keys::dkg::{round1, round2};
 verus! {
-//@module_serves C04 C07 C08 C09 C10
+//@module_serves C04 C07 C08 C09 C10 C17
 
 // ---------------------------------------------------------------------------------------------------
 // whom an error blames (C04, C08: "the error names exactly the offending sender"): what `Error::culprits()` returns
@@ -223,6 +223,21 @@ pub proof fn lemma_refresh_shares_faults<C: Ciphersuite>(own: Identifier<C>, r1:
             assert(refresh_r2_share_ok::<C>(own, r1, r2, keys[w]) is Ok);
         }
     }
+}
+
+// ---------------------------------------------------------------------------------------------------
+// frost-rerandomized aggregation (C17) -- the coordinator's refusals (lemmas/vspec_agg.rs: agg_guard_err) for the shares and threshold of
+// the package `pk` and a group key given SEPARATELY (the randomized key Y + alpha*G; shifting the verifying shares does not change which
+// identifiers have one).  Lets the p_ clauses of rerandomized `aggregate` speak about the randomized session without naming a
+// randomized PublicKeyPackage (a BTreeMap holder has no spec-level constructor, so "exists a package .." cannot be shown on a path that
+// never built one, e.g. an added early refusal).
+pub open spec fn agg_guard_err_for_key<C: Ciphersuite>(sp: SigningPackage<C>, shares: ShareMap<C>, pk: PublicKeyPackage<C>, vk: Element<C>, detect: bool) -> Option<Error<C>> {
+    if sp.signing_commitments@.dom().len() != shares.dom().len() { Some(Error::UnknownIdentifier) }
+    else if pk.min_signers is Some && shares.dom().len() < pk.min_signers->Some_0 { Some(Error::IncorrectNumberOfShares) }
+    else if exists|id: Identifier<C>| #[trigger] sp.signing_commitments@.contains_key(id) && !(shares.contains_key(id) && (detect ==> pk.verifying_shares@.contains_key(id)))
+        { Some(Error::UnknownIdentifier) }
+    else if vk == e0::<C>() || items_have_identity::<C>(sp_items::<C>(sp)) { Some(Error::GroupError(GroupError::InvalidIdentityElement)) }
+    else { None }
 }
 
 } // verus!
